@@ -127,6 +127,19 @@ def havoc_result(loc, names, values):
 def _ret_default(val, loc):
     return val
 
+def t_fromfile_float(tree):
+    """T4 modeling.py: inside op.fromfile every call float(...) becomes __vp_float__(...) (default:
+    the builtin), so that a harness can feed symbolic numeric fields to the real MPS reader"""
+    hits = 0
+    for node in ast.walk(tree):
+        if isinstance(node, ast.FunctionDef) and node.name == 'fromfile':
+            for n in ast.walk(node):
+                if isinstance(n, ast.Call) and isinstance(n.func, ast.Name) and n.func.id == 'float':
+                    n.func = ast.Name('__vp_float__', ast.Load()); hits += 1
+    if hits < 5:
+        raise HarnessError('modeling.py: expected the float(...) field conversions in op.fromfile, found %d' % hits)
+    return tree
+
 def _exec_module(fullname, path, tree, inject):
     ast.fix_missing_locations(tree)
     mod = types.ModuleType(fullname)
@@ -135,6 +148,7 @@ def _exec_module(fullname, path, tree, inject):
     mod.__dict__['__vp_iters__'] = _iters_default
     mod.__dict__['__vp_havoc__'] = _havoc_default
     mod.__dict__['__vp_ret__'] = _ret_default
+    mod.__dict__['__vp_float__'] = float
     sys.modules[fullname] = mod
     exec(compile(tree, path, 'exec'), mod.__dict__)
     return mod
@@ -186,6 +200,8 @@ def load(mode, use_c=None, transform_solvers=True, modules=('misc', 'coneprog', 
             tree = t_solver(tree, CONEPROG_SPECS)
         elif name == 'cvxprog' and transform_solvers:
             tree = t_solver(tree, CVXPROG_SPECS)
+        elif name == 'modeling':
+            tree = t_fromfile_float(tree)
         mod = _exec_module('cvxopt.' + name, src_path(name), tree, inject if name != 'solvers' else {})
         setattr(pkg, name, mod)
         setattr(W, name, mod)
